@@ -12,6 +12,8 @@ import AY.Driver.OpsC12
 import AY.Driver.OpsC08
 import AY.Driver.OpsMeta
 import AY.Driver.OpsBunch
+import AY.Driver.OpsImportName
+import AY.Driver.OpsErrWrap
 open Lean AY AY.Codec
 
 def parseDocs (j : Json) : Except String (List (Env × Raw)) :=
@@ -112,6 +114,8 @@ def dispatch (j : Json) : Json :=
   | .ok (.str "metaSplice") => AY.OpsMeta.opMetaSplice j
   | .ok (.str "metaSplit") => AY.OpsMeta.opMetaSplit j
   | .ok (.str "bunch") => AY.OpsBunch.opBunch j
+  | .ok (.str "importName") => AY.OpsImportName.opImportName j
+  | .ok (.str "errwrap") => AY.OpsErrWrap.opErrWrap j
   | _ => Json.mkObj [("bad", .str "unknown op")]
 
 partial def loop (h : IO.FS.Stream) (out : IO.FS.Stream) : IO Unit := do
